@@ -81,6 +81,8 @@ brentsrootvec = Contract(
 
 import copy as _copy
 # the `isinstance(f, list)` front end (the form handle_events uses): projected on one element, f = [f_i]
+# ownership: the caller still holds the arrays it passed as the bracket (it may hand the same bracket to the next call) -- frame clause
+brentsrootvec.borrowed = ("bounds",)
 brentsrootvec_list = _copy.copy(brentsrootvec)
 brentsrootvec_list.sorts = dict(brentsrootvec.sorts)
 brentsrootvec_list.sorts["f"] = ("list", ("uf", "f", "real"))
